@@ -16,6 +16,9 @@ import sys
 import time
 
 ROOT = os.path.dirname(os.path.dirname(os.path.abspath(__file__)))
+# lanes: a copy of /verif (check, harness with its Cargo path rewritten, golden, known_findings.json, tools) next to its own
+# worktree of /repo can evaluate seeded changes in parallel with the main tree; EVAL_REPO names that worktree
+REPO = os.environ.get("EVAL_REPO", "/repo")
 ALL = ["C%02d" % i for i in range(1, 21)]
 ENV = dict(os.environ, CARGO_NET_OFFLINE="true", CARGO_TERM_COLOR="never")
 # checks run against a seeded change must not overwrite the evidence of the unchanged tree
@@ -77,11 +80,11 @@ def confirm(d):
 
 
 def detect(d, ids):
-    rc, out = sh(["git", "-C", "/repo", "status", "--porcelain", "--untracked-files=no"])
+    rc, out = sh(["git", "-C", REPO, "status", "--porcelain", "--untracked-files=no"])
     if out.strip():
-        print("/repo working tree is not clean", file=sys.stderr)
+        print(f"{REPO} working tree is not clean", file=sys.stderr)
         sys.exit(2)
-    rc, out = sh(["git", "-C", "/repo", "apply", os.path.abspath(os.path.join(d, "patch.diff"))])
+    rc, out = sh(["git", "-C", REPO, "apply", os.path.abspath(os.path.join(d, "patch.diff"))])
     if rc != 0:
         print("patch does not apply:", out, file=sys.stderr)
         sys.exit(2)
@@ -99,7 +102,7 @@ def detect(d, ids):
                             "first": first[:300] if first else None, "inconclusive": [l for l in lines if l.startswith("INCONCLUSIVE")][:3]}
             print(f"  {pid}: exit {rc}  {first[:140] if first else ''}", flush=True)
     finally:
-        sh(["git", "-C", "/repo", "checkout", "--", "."])
+        sh(["git", "-C", REPO, "checkout", "--", "."])
     return results
 
 
